@@ -774,7 +774,7 @@ theorem findSection_name {ss : List (String × List RLine)} {name : String} {rs 
 /-- the i-th processor of an accepted source is `mkCP` of the prepared body of a section that the
     i-th `cpdef` names -/
 theorem assemble_cp {src : Source} {fix : Bool} {bm : BM} (h : assemble src fix = .ok bm) {i : Nat} {c : CpDef} {cp : CP}
-    (hc : src.cps[i]? = some c) (hcp : bm.cps[i]? = some cp) :
+    (hc : src.procs[i]? = some c) (hcp : bm.cps[i]? = some cp) :
     ∃ sec ∈ src.sections, sec.name = c.romcode ∧ ∃ rs, prepSection fix src.iomode sec = .ok rs ∧
       mkCP bm.rsize rs = .ok cp ∧ src.rsize = some bm.rsize ∧ hasDup (allLabels sec.lines) = false := by
   obtain ⟨rsize, ss, bodies, cps, hrs, _, _, hdup, hss, hb, _, hmk, rfl⟩ := assemble_ok_inv h
@@ -782,7 +782,7 @@ theorem assemble_cp {src : Source} {fix : Bool} {bm : BM} (h : assemble src fix 
   have hm2 := mapE_ok hmk
   have hlen1 := hb2.length_eq
   have hlen2 := hm2.length_eq
-  have hi : i < src.cps.length := (List.getElem?_eq_some_iff.mp hc).1
+  have hi : i < src.procs.length := (List.getElem?_eq_some_iff.mp hc).1
   have hbi : bodies[i]? = some bodies[i] := List.getElem?_eq_getElem (by omega)
   have hbody := hb2.get i c _ hc hbi
   have hmkcp := hm2.get i _ cp hbi hcp
@@ -805,7 +805,7 @@ theorem assemble_cp {src : Source} {fix : Bool} {bm : BM} (h : assemble src fix 
 /-- … which is what `Assembled` asks for (unchanged pipeline), given that the real instructions
     of the section are non-blocking -/
 theorem assembled_of_assemble {src : Source} {bm : BM} (h : assemble src false = .ok bm) {i : Nat} {c : CpDef} {cp : CP}
-    (hc : src.cps[i]? = some c) (hcp : bm.cps[i]? = some cp) :
+    (hc : src.procs[i]? = some c) (hcp : bm.cps[i]? = some cp) :
     ∃ sec ∈ src.sections, sec.name = c.romcode ∧ ∃ rs, prepSection false src.iomode sec = .ok rs ∧
       ((∀ r ∈ rs, r.op ≠ "i2rw" ∧ r.op ≠ "r2owa") → Assembled (SecCtx.of src sec) rs cp.arch cp.prog) := by
   obtain ⟨sec, hsec, hname, rs, hprep, hmk, hrs, hnd⟩ := assemble_cp h hc hcp
